@@ -1178,6 +1178,19 @@ fn mutate(r: &mut Rng, base: &str) -> String {
                     lx.insert(p, x);
                 }
             }
+            8 if r.chance(1, 2) => {
+                // a near miss: the case of one letter flipped, or a blank appended inside a string
+                let mut cs: Vec<char> = lx[i].chars().collect();
+                let letters: Vec<usize> = (0..cs.len()).filter(|p| cs[*p].is_ascii_alphabetic()).collect();
+                if !letters.is_empty() && r.chance(3, 4) {
+                    let p = letters[r.below(letters.len() as u64) as usize];
+                    cs[p] = if cs[p].is_ascii_lowercase() { cs[p].to_ascii_uppercase() } else { cs[p].to_ascii_lowercase() };
+                } else if cs.len() >= 2 && cs[0] == '"' {
+                    let at = cs.len() - 1;
+                    cs.insert(at, ' ');
+                }
+                lx[i] = cs.into_iter().collect();
+            }
             8 => {
                 // a character-level edit inside the lexeme
                 let mut cs: Vec<char> = lx[i].chars().collect();
@@ -1339,19 +1352,26 @@ fn one(args: &Args) -> i32 {
     0
 }
 
-/// depth=N what=parse|format|print : one deeply nested program; the process exits 0 when the real code
+/// depth=N what=parse|format|print [repeat=FRAGMENT]: one deeply nested program (or N copies of FRAGMENT); the process exits 0 when the real code
 /// returned (whatever it returned).  A stack overflow kills the process -- the driver reads the signal.
 fn deep(args: &Args) -> i32 {
     quiet_panics();
     let depth: usize = args.num("depth", 1000);
     let what = args.str("what").unwrap_or("parse");
     let mut s = String::new();
-    for i in 0..depth {
-        s.push_str(if i % 2 == 0 { "hbox(content=[" } else { "vbox(content=[" });
-    }
-    s.push_str("kern(1pt)");
-    for _ in 0..depth {
-        s.push_str("])");
+    if let Some(unit) = args.str("repeat") {
+        // long rather than deep: `depth` copies of a fragment (recursion per token in error recovery)
+        for _ in 0..depth {
+            s.push_str(unit);
+        }
+    } else {
+        for i in 0..depth {
+            s.push_str(if i % 2 == 0 { "hbox(content=[" } else { "vbox(content=[" });
+        }
+        s.push_str("kern(1pt)");
+        for _ in 0..depth {
+            s.push_str("])");
+        }
     }
     let r = match what {
         "format" => catch(|| bwl::format(&s).map(|t| t.len()).map_err(|e| e.len())).map(|r| format!("{r:?}")),
